@@ -33,6 +33,22 @@ struct Nested {
     tag: Shape,
 }
 
+/// variants whose payload is itself tuple-, list-, map- or atom-shaped once serialised
+#[derive(Debug, Clone, PartialEq, Serialize, Deserialize)]
+enum Outer {
+    Leaf,
+    Wrap(Shape),
+    Coords((i64, i64)),
+    Single((i64,)),
+    Maybe(Option<Shape>),
+    Items(Vec<i64>),
+    Rec(Plain),
+    Table(BTreeMap<String, i64>),
+    Boxed(Box<Outer>),
+    Pair(Shape, Shape),
+    Named { inner: Shape, next: Option<Box<Outer>> },
+}
+
 /// options around values whose serialised form is empty or atom-like
 #[derive(Debug, Clone, PartialEq, Serialize, Deserialize)]
 struct WithOpts {
@@ -153,6 +169,11 @@ fn dispatch(ty: &str, j: &Value) -> Value {
         "Plain" => go::<Plain>(j),
         "Nested" => go::<Nested>(j),
         "Shape" => go::<Shape>(j),
+        "Outer" => go::<Outer>(j),
+        "OptOuter" => go::<Option<Outer>>(j),
+        "VecOuter" => go::<Vec<Outer>>(j),
+        "ResI64Str" => go::<Result<i64, String>>(j),
+        "ResTupShape" => go::<Result<(i64, i64), Shape>>(j),
         "VecShape" => go::<Vec<Shape>>(j),
         "OptPlain" => go::<Option<Plain>>(j),
         "MapAtomish" => go::<BTreeMap<String, String>>(j),
